@@ -163,6 +163,10 @@ def check_obligations(prop, expected):
     if os.environ.get('VERIF_TIER_RUNNING') == 'thorough' and expected:
         # independent re-check of the compiled library (every module BB imports) by Lean's external checker
         rc, out = run(['lake', 'env', 'leanchecker', 'BB'], cwd=LEAN_DIR, timeout=3600)
+        if rc != 0 and (rc < 0 or rc >= 128 or not out.strip()):
+            # killed (out of memory when several heavy jobs share the machine) or died without a word: the re-checker did
+            # not run to a verdict.  That is a failure of the infrastructure (exit 2), not a statement about any proof.
+            raise RuntimeError('leanchecker did not run to completion (exit status {}, no diagnostics): not a verdict'.format(rc))
         if rc != 0:
             failed.append(('leanchecker', out[-2000:]))
     if os.environ.get('VERIF_TIER_RUNNING') == 'thorough' and expected:
@@ -170,6 +174,8 @@ def check_obligations(prop, expected):
         slow = _ob.SLOW_THEOREMS.get(prop, [])
         if slow:
             rc, out = run(['lake', 'build', 'BBSlow'], cwd=LEAN_DIR, timeout=5400)
+            if rc != 0 and (rc < 0 or rc >= 128 or 'error:' not in out):
+                raise RuntimeError('lake build BBSlow did not run to completion (exit status {}): not a verdict'.format(rc))
             if rc != 0:
                 failed.append(('lake build BBSlow', out[-3000:]))
             else:
